@@ -723,7 +723,7 @@ fn run_reader_prop(ctx: &Ctx, prop: Prop, lit: (usize, u64)) -> i32 {
             // file "last modified" 40 minutes ago (stores through the mapping do not move st_mtime), a stepped wall
             // clock leaves one older than the boot or from the future. Restarts and attaches with such stamps.
             let mut aged: Vec<Scenario> = vec![];
-            for ft in [1u8, 2, 3, 4, 5] {
+            for ft in [1u8, 2, 3, 4, 5, 6, 7] {
                 for sc in multi_incarnation(Tier::Quick, 2, &dir0) {
                     // the restart after a clean exit and after a crash inside the first update
                     if matches!(sc.init, Init::Valid(_)) && (sc.incs[0].1.is_none() || sc.incs[0].1 == Some(3)) {
@@ -731,7 +731,7 @@ fn run_reader_prop(ctx: &Ctx, prop: Prop, lit: (usize, u64)) -> i32 {
                     }
                 }
             }
-            plans.push(Plan { works: record_all(aged, &base), mode: Mode::Sc, dev_bound: unb, stop_points: false, full_spin: false, fresh_clock: false, label: "SC, restart after a clean exit / a crash mid-update on a segment file whose time stamps are 40 min old, from 2001, or 1 h ahead, or whose mode is 0664 / 0666" });
+            plans.push(Plan { works: record_all(aged, &base), mode: Mode::Sc, dev_bound: unb, stop_points: false, full_spin: false, fresh_clock: false, label: "SC, restart after a clean exit / a crash mid-update on a segment file whose time stamps are 40 min old, from 2001, or 1 h ahead, or whose mode is 0664 / 0666, or that belongs to another user (uid 65534, mode 0644 / 0666)" });
         }
         Prop::C18 => {
             plans.push(Plan { works: record_all(single_incarnation(tier, 2, &[1, 2]), &base), mode: Mode::Ra, dev_bound: tier.pick(2, 4), stop_points: true, full_spin: true, fresh_clock: false, label: "RA, writer stops for ever at every point, bounded stale reads" });
@@ -1464,7 +1464,7 @@ fn run_c11(ctx: &Ctx) -> i32 {
             let mut scs = vec![Scenario { init: Init::Valid(g), incs: vec![(3, None)], chunks, family: 0, file_times: 0 }];
             if g % 8191 == 2 {
                 // (every 8191st start value) a clean restart on a file whose time stamps are old / pre-boot / in the future
-                for ft in [1u8, 2, 3, 4, 5] {
+                for ft in [1u8, 2, 3, 4, 5, 6, 7] {
                     scs.push(Scenario { init: Init::Valid(g), incs: vec![(1, None), (2, None)], chunks, family: 0, file_times: ft });
                 }
             }
